@@ -174,7 +174,8 @@ func (h *responseCache) insert(entry *cacheEntry) {
 	h.mux.Lock()
 	defer h.mux.Unlock()
 	// See if we need to make room for the new entry
-	for h.currentSizeBytes+len(entry.responseData) >= h.maxBytes {
+	for h.head != nil && h.currentSizeBytes+len(entry.responseData) >= h.maxBytes {
+		// (an empty list cannot make more room: without the check a response of exactly maxBytes would spin here for ever, holding the lock)
 		_ = h.pop()
 	}
 	if h.head == nil {
